@@ -164,6 +164,11 @@ def run(chk, tier, scale=1.0):
                 b"a /* b", b'a "b', b"a b c d", b"a { b { c { d", b"a ()()", b"a ,", b", a", b"a b; }", b"a { } }", b'a "\\x', b'a "\\x4', b'a "\\',
                 b"a " + b"{ b " * 1000, b"a " + b"{ b " * 1000 + b"1 " + b"} " * 1000 + b"\n", b'a "' + b"x" * 65536 + b'"\n', b'a "' + b"x" * 65536,
                 b"a (" + b"b," * 3000 + b"c)\n", b"\xff\xfe\xfd", bytes(range(1, 256)), b"a b\n" * 2000, "missing", "directory"]
+    # escape sequences cut short or malformed, at every distance from the closing quote
+    for esc in [b"\\x", b"\\x4", b"\\x4z", b"\\xg", b"\\x41", b"\\xZ9", b"\\", b"\\q", b"\\x4\\x4", b"\\x\\x", b"\\xff\\x", b"\\x0", b"\\x00", b"\\n\\x1"]:
+        for tmpl in (b'a "%s"\n', b'a "%s', b'a "xy%s"\n', b'a "%sxy"\n', b'a ("%s", "b")\n', b'"%s" v\n', b'o { k "%s" }\n', b'a "%s" "%s"\n', b'a b, "%s"\n',
+                     b'a "%s"', b'a "%s";b "%s"\n'):
+            specials.append(tmpl.replace(b"%s", esc))
     for i in range(int(40 * (1 if tier == "quick" else 10))):
         specials.append(bytes(rng.randrange(256) for _ in range(rng.choice([1, 3, 10, 50, 200, 1000]))))
         specials.append(bytes(rng.choice(b'ab {}(),;"\\/*\n ') for _ in range(rng.choice([3, 10, 50, 200]))))
